@@ -40,11 +40,13 @@ const issuerKey = "acme-v02.api.letsencrypt.org-directory"
 var publicNames = []string{"example.com", "www.example.com", "sub.example.org", "*.example.com", "single"}
 
 var (
-	seedOnce sync.Once
+	seedOnce             sync.Once
 	manualCrt, manualKey string
 )
 
-func pemOf(typ string, der []byte) []byte { return pem.EncodeToMemory(&pem.Block{Type: typ, Bytes: der}) }
+func pemOf(typ string, der []byte) []byte {
+	return pem.EncodeToMemory(&pem.Block{Type: typ, Bytes: der})
+}
 
 // seed certmagic's file storage with a certificate for every public name the
 // generator can produce, so that casket finds a managed certificate and never
